@@ -1,5 +1,6 @@
 import Huginn.Props.C09
 import Huginn.Props.C09Bridge
+import Huginn.Props.C07Cap
 /-
 C09 on the cache-program model: the reassembly theorem, proved for `HttpFlow.run` (finite map, no
 expiry, no capacity), holds verbatim for the HTTP analyzer as a cache program over the TtlCache model
@@ -24,5 +25,37 @@ theorem reassembly_partition_cache {ρ σ : Type} (P : Parsers ρ σ) (hm : MinL
       specConn P c ds := by
   rw [http_trace_bridge_fresh P a cap ps hwin hfit, hps]
   exact reassembly_partition P hm c C S ds hne hpl hC hS pC pS
+
+theorem params_resultIndep {ρ σ : Type} (P : Parsers ρ σ) : Huginn.Props.C07.ResultIndep (params P) :=
+  ⟨fun _ _ _ => rfl, fun _ _ _ => rfl⟩
+
+/-- **Reassembly inside arbitrary other traffic** (C09 ∘ C07): take ANY interleaved trace `tr` of any
+number of connections that opens at most `cap` distinct flows. If the segments of connection `conn`
+in it, in their order of arrival, are a division (any sizes, any permutation, any ISNs) of a client
+stream `C` and a server stream `S` of at most 64 KiB, arriving within one TTL window, then what the
+analyzer reports for `conn` in the interleaved run is exactly what the specification says for that
+connection alone. -/
+theorem reassembly_interleaved {ρ σ : Type} (P : Parsers ρ σ) (hm : MinLen P) (c : Conn) (C S : Bytes)
+    (ds : List DataPkt) (hne : c.client ≠ c.client.rev) (hpl : PlainData ds)
+    (hC : C.length ≤ maxBufferedHeadBytes) (hS : S.length ≤ maxBufferedHeadBytes)
+    (pC : PartitionOf c.isnC C (segsOf true ds)) (pS : PartitionOf c.isnS S (segsOf false ds))
+    (ps : List (Pkt × Nat × Nat)) (hps : ps.map (·.1) = c.packets ds)
+    (a : Nat) (hwin : ∀ x ∈ ps, a ≤ x.2.1 ∧ x.2.1 ≤ a + (params P).ttlMs)
+    -- the whole capture, and `conn`'s part of it
+    (tr : List Huginn.FlowProgs.Seg) (conn : Huginn.FlowProgs.Ep × Huginn.FlowProgs.Ep)
+    (hsel : tr.filter (fun s => decide (Huginn.FlowProgs.httpConnOf s = conn)) =
+      ps.map (fun x => toSeg x.1 x.2.1 x.2.2))
+    (cap : Nat) (K : List Huginn.FlowProgs.FlowKey)
+    (hK : ∀ s ∈ tr, s.syn = true → Huginn.FlowProgs.flowKeyOf s ∈ K) (hlen : K.length ≤ cap) :
+    (((Huginn.FlowProgs.httpAnalyzer (params P)).runOuts ({ cap := cap }, ()) tr).filter
+        (fun po => decide (Huginn.FlowProgs.httpConnOf po.1 = conn))).map (fun po => (po.2.req, po.2.resp)) =
+      specConn P c ds := by
+  rw [Huginn.Props.C07.http_isolation_cap (params P) (params_resultIndep P) conn tr cap () K hK hlen, hsel]
+  refine reassembly_partition_cache P hm c C S ds hne hpl hC hS pC pS ps hps a cap hwin ?_
+  apply Huginn.Props.C07.noEvict_of_keysIn _ K _ _ _ _ (Huginn.Props.C07.keysIn_empty K cap) hlen
+  intro s hs
+  refine Huginn.Props.C07.http_insertsIn _ s K (hK s ?_)
+  rw [← hsel] at hs
+  exact (List.mem_filter.1 hs).1
 
 end Huginn.Props.C09
